@@ -1,8 +1,27 @@
 --------------------------------- MODULE Denote ---------------------------------
 (* Dispatch from an operation event to its reference meaning.                    *)
-EXTENDS Views, Select, Broadcast, Slice
+EXTENDS Views, Select, Broadcast, Slice, Ufunc, TLC
 
-Operand(e, j) == IF j <= Len(e.shapes) THEN Leaf(e.shapes[j], j - 1) ELSE Nothing
+Operand(e, j) == IF j > Len(e.shapes) THEN Nothing
+                 ELSE IF "data" \in DOMAIN e THEN [ok |-> TRUE, shape |-> e.shapes[j], elems |-> e.data[j]]
+                 ELSE Leaf(e.shapes[j], j - 1)
+BinOps == {"mix", "add", "subtract", "multiply", "divide", "maximum", "minimum", "fmax", "fmin", "equal", "not_equal", "less", "less_equal",
+           "greater", "greater_equal", "logical_and", "logical_or", "logical_xor", "bitwise_and", "bitwise_or", "bitwise_xor", "left_shift", "right_shift"}
+UnOps == {"mix1", "negative", "positive", "square", "fabs", "logical_not", "invert", "signbit", "relu", "relu6"}
+OuterOps == {"outer_mix", "outer_add", "outer_subtract", "outer_multiply"}
+OuterName(op) == CASE op = "outer_mix" -> "mix" [] op = "outer_add" -> "add" [] op = "outer_subtract" -> "subtract" [] op = "outer_multiply" -> "multiply"
+RedOps == {"reduce_mix", "reduce_add", "reduce_add_f", "reduce_multiply", "reduce_maximum", "reduce_minimum", "sum", "prod", "amax", "amin"}
+RedName(op) == CASE op \in {"reduce_add", "reduce_add_f", "sum"} -> "add" [] op \in {"reduce_multiply", "prod"} -> "multiply"
+                 [] op \in {"reduce_maximum", "amax"} -> "maximum" [] op \in {"reduce_minimum", "amin"} -> "minimum" [] op = "reduce_mix" -> "mix"
+AccOps == {"accumulate_mix", "accumulate_add", "accumulate_multiply", "accumulate_maximum", "cumsum", "cumprod"}
+AccName(op) == CASE op \in {"accumulate_add", "cumsum"} -> "add" [] op \in {"accumulate_multiply", "cumprod"} -> "multiply"
+                 [] op = "accumulate_maximum" -> "maximum" [] op = "accumulate_mix" -> "mix"
+Keep(e) == e.args.keepdims \in {"T", "t"}
+Squares(a) == [a EXCEPT !.elems = [q \in 1..Len(a.elems) |-> a.elems[q] * a.elems[q]]]
+\* n^2 * variance = n * sum(x^2) - (sum x)^2 with n = mul (mean), n^2 = mul (var/stddev)
+ScaledVar(a, e, n) == LET s1 == Reduce("add", a, e.args.axis, <<>>, Keep(e))  s2 == Reduce("add", Squares(a), e.args.axis, <<>>, Keep(e))
+                      IN IF ~s1.ok THEN Nothing ELSE [s1 EXCEPT !.elems = [q \in 1..Len(s1.elems) |-> n * s2.elems[q] - s1.elems[q] * s1.elems[q]]]
+WithDtype(r, f) == IF r.ok THEN [dtype |-> IF IsPredicate(f) THEN "bool" ELSE IF IsFloatValued(f) THEN "float" ELSE "int"] @@ r ELSE r
 
 Expect(e) ==
     LET a == Operand(e, 1) IN    \* generators have no operand (shapes = <<>>)
@@ -56,6 +75,16 @@ Expect(e) ==
       [] e.op = "pad" -> Pad(a, e.args.widths, e.args.value)
       [] e.op = "resize" -> Resize(a, e.args.dst)
       [] e.op = "expand" -> Expand(a, e.args.axis, e.args.spacing, e.args.fill)
+      \* C07
+      [] e.op \in BinOps -> WithDtype(Elementwise(<<a, Operand(e, 2)>>, LAMBDA v : Scalar2(e.op, v[1], v[2])), e.op)
+      [] e.op \in UnOps -> WithDtype(Elementwise(<<a>>, LAMBDA v : Scalar1(e.op, v[1])), e.op)
+      [] e.op \in OuterOps -> WithDtype(Outer(OuterName(e.op), a, Operand(e, 2)), OuterName(e.op))
+      \* C08
+      [] e.op \in RedOps -> Reduce(RedName(e.op), a, e.args.axis, e.args.initial, Keep(e))
+      [] e.op \in AccOps -> Accumulate(AccName(e.op), a, e.args.axis)
+      [] e.op = "mean" -> Reduce("add", a, e.args.axis, <<>>, Keep(e))
+      [] e.op \in {"var", "stddev"} -> ScaledVar(a, e, e.args.n)
+      [] e.op = "vector_norm" -> Reduce("add", Squares(a), e.args.axis, <<>>, Keep(e))
       \* C05
       [] e.op = "slice" -> SliceView(a, e.args.parts)
       \* C06
